@@ -42,6 +42,7 @@ func runC02(ctx *Ctx) *Report {
 		{IndentChar: '\t', Unit: 1, Bullets: "-*", FinalNL: true},
 		{IndentChar: ' ', Unit: 4, Bullets: "+", FinalNL: false, Sharp: true},
 		{IndentChar: ' ', Unit: 3, Bullets: "*", FinalNL: true, BlankEvery: 2, BlankRow: " "},
+		{IndentChar: ' ', Unit: 2, Bullets: "-*", FinalNL: true, NoSpace: true},
 	}
 	modes := []string{"out-iter", "out-batch", "walk", "json", "yaml", "dry"}
 	var cases []Case
@@ -112,6 +113,16 @@ func runC02(ctx *Ctx) *Report {
 				// M5: an item before the first root
 				add(unit+"- early"+nl+doc, "M5-item-before-root")
 				add(unit+unit+"* early"+nl+doc, "M5-item-before-root")
+			}
+		}
+	}
+	// well-formed documents whose names contain bullet symbols, in notations using the other bullets:
+	// they must be accepted ("error iff malformed")
+	for fi, f := range forestsUpTo(3, []string{"todo - later", "a * b", "p + q", "-", "x"}) {
+		for si, sp := range []Spelling{{IndentChar: ' ', Unit: 2, Bullets: "*", FinalNL: true}, {IndentChar: '\t', Unit: 1, Bullets: "+", FinalNL: true},
+			{IndentChar: ' ', Unit: 4, Bullets: "+*-", FinalNL: false}, {IndentChar: ' ', Unit: 2, Bullets: "*+", FinalNL: true, Sharp: true}} {
+			if (fi+si)%2 == 0 || ctx.Thorough {
+				add(string(spell(f, sp)), "well-formed")
 			}
 		}
 	}
